@@ -217,6 +217,9 @@ func runC01(p *core.Prog, r *core.Report, tier string) {
 				if !strings.Contains(f.Name(), "ByIndex") {
 					continue
 				}
+				if f.Parent() == nil && strings.HasPrefix(f.Name(), "accountsForEpoch") {
+					checkOwnFilteredResult(p, r, ds, "C01.j", core.RelPkg(f.Pkg.Pkg.Path())+"|"+core.FnKey(f), f)
+				}
 				core.EachInstr(f, func(in ssa.Instruction) {
 					mu, ok := in.(*ssa.MapUpdate)
 					if !ok {
@@ -232,6 +235,51 @@ func runC01(p *core.Prog, r *core.Report, tier string) {
 			}
 		}
 		r.Floor("C01.j by-index account results", nBy, 2)
+	}
+
+	// ---- (m) no retry below the attester either: in the signer, once a request to sign attestations has been made of
+	// an account (or of the multi-signer for the whole batch) and has failed, no further such request follows — the
+	// first one may have been carried out although its answer was lost ----
+	{
+		nSR := 0
+		for _, f := range p.FuncsIn("services/signer/standard") {
+			isAttSign := func(in ssa.Instruction) bool {
+				ci, ok := in.(ssa.CallInstruction)
+				if !ok {
+					return false
+				}
+				return strings.HasPrefix(core.MethodName(ci.Common()), "SignBeaconAttestation")
+			}
+			var sites []*ssa.Call
+			core.EachInstr(f, func(in ssa.Instruction) {
+				if c, ok := in.(*ssa.Call); ok && isAttSign(in) {
+					sites = append(sites, c)
+				}
+			})
+			for i, site := range sites {
+				errV := core.ExtractOf(site, site.Type().(*types.Tuple).Len()-1)
+				if errV == nil {
+					continue
+				}
+				nSR++
+				var wit []ssa.Instruction
+				for _, b := range f.Blocks {
+					iff, ok := b.Instrs[len(b.Instrs)-1].(*ssa.If)
+					if !ok {
+						continue
+					}
+					sn := core.ErrNilSucc(core.DecodeCond(ds, iff), errV)
+					if sn < 0 {
+						continue
+					}
+					if w := (core.PathQuery{Fn: f, StartEdge: &[2]*ssa.BasicBlock{b, b.Succs[1-sn]}, Target: isAttSign}).Find(); w != nil {
+						wit = w
+					}
+				}
+				r.Check(wit == nil, "C01.m", fmt.Sprintf("%s|no-request-after-failed-request#%d", core.FnKey(f), i+1), p.Pos(site.Pos()), "after a failed signing request no further signing request is made", "after this signing request has failed another signing request is made for the same attestations: the remote signer may have carried out the first one, so the validators are asked for a second attestation signature in the epoch", p.WitnessText(wit)...)
+			}
+		}
+		r.Floor("C01.m attestation signing requests in the signer", nSR, 2)
 	}
 
 	// ---- (k) one signature request entry per validator: the accounts handed to the signer are collected by ranging over
